@@ -324,7 +324,7 @@ pub fn run(tier: &str) -> Result<Report, String> {
     for b in nets.iter().filter(|b| which.contains(&b.name.as_str())) {
         crate::sem::note_network(&mut rep, b);
         let ctx = NetCtx::new(b.clone(), Labels::default(), "none");
-        let mut g = Gen::new(Alphabet::plain(ctx.nprops(), 3));
+        let mut g = Gen::new(Alphabet::all_ops(ctx.nprops(), 3));
         let mut fs = g.closed_up_to(if tier == "quick" && ["con2", "asy2"].contains(&b.name.as_str()) { 4 } else { m });
         fs.extend(templates(&ctx.user, false, pool));
         let res: Vec<(u64, Option<Violation>)> = fs
